@@ -32,6 +32,7 @@ CONSTANTS
   LoadUnderLock = TRUE
   AbsentPurge = TRUE
   Reapplies = FALSE
+  ClientGones = TRUE
   Ghost = TRUE
   GenDepth = 70
 INVARIANT Emit
